@@ -594,10 +594,29 @@ func (p *Program) frameFactsOf(fn *ssa.Function, put bool) frameFacts {
 			}
 		case *ssa.Slice:
 			if x.High != nil && x.Low == nil {
+				if _, isBytes := x.Type().Underlying().(*types.Slice); !isBytes {
+					return
+				}
 				if k, ok := constInt(x.High); ok {
-					if _, isBytes := x.Type().Underlying().(*types.Slice); isBytes {
-						ff.hdrLens = append(ff.hdrLens, k)
+					ff.hdrLens = append(ff.hdrLens, k)
+					return
+				}
+				// the length is a helper's parameter (resize(b, headerLen)): the constants passed for it inside the region
+				if par, ok := x.High.(*ssa.Parameter); ok {
+					h := par.Parent()
+					idx := -1
+					for i, fp := range h.Params {
+						if fp == par {
+							idx = i
+						}
 					}
+					p.eachInstrRegion(fn, func(_ *ssa.Function, y ssa.Instruction) {
+						if c, ok := y.(ssa.CallInstruction); ok && !c.Common().IsInvoke() && c.Common().StaticCallee() == h && idx >= 0 && idx < len(c.Common().Args) {
+							if k, ok := constInt(c.Common().Args[idx]); ok {
+								ff.hdrLens = append(ff.hdrLens, k)
+							}
+						}
+					})
 				}
 			}
 		}
